@@ -201,7 +201,8 @@ func runC01(c *Ctx, phase string) {
 	c.Floor("expected_false", 1000)
 	c.Floor("trees_or_under_and_under_or", 1)
 	c.Floor("long_allowed_lists", 100)
-	for _, s := range []string{"left_chain", "right_chain", "balanced", "or_and_or", "andchain_x_or", "random"} {
+	c.Floor("trees_with_64plus_alternatives", 20)
+	for _, s := range []string{"left_chain", "right_chain", "balanced", "or_and_or", "andchain_x_or", "random", "long_chain"} {
 		c.Floor("shape_"+s, 10)
 	}
 	for _, k := range []string{"plain", "plus", "plain_with", "synth_only", "synth_later", "ref", "docref", "listed_later", "listed_only", "deprecated"} {
